@@ -218,6 +218,11 @@ def check(run, ctx):
             in_abs = any(isinstance(i_, ast.If) and any(is_call_named(c_, "is_absolute") for c_ in ast.walk(i_.test)) and any(r_ is y for b_ in i_.body for y in ast.walk(b_)) for i_ in ast.walk(gr.node))
             prods += producers(gr, v_.func.value, in_abs)
     run.require(bool(prods), "get_relative_path: no `return <path>.relative_to(project_root)` found")
+    # a return on the normal path (inside the try body) that hands the path on without relativising it
+    for t_ in [x for x in ast.walk(gr.node) if isinstance(x, ast.Try)]:
+        for r_ in [x for b_ in t_.body for x in ast.walk(b_) if isinstance(x, ast.Return) and x.value is not None]:
+            if not (isinstance(r_.value, ast.Call) and call_name(r_.value) == "relative_to"):
+                prods.append((r_.value, False))
     def has(e, *names):
         return any(isinstance(x, ast.Call) and (call_name(x) in names or dotted(x.func) in names) for x in ast.walk(e))
     as_is = [e for e, guarded in prods if not guarded and not has(e, "resolve", "absolute", "cwd", "abspath", "os.path.abspath")]
